@@ -265,7 +265,7 @@ def _props_sub(px, py):
 
 def relation(x, y):
     """'equiv_ord' | 'equiv_set' | 'covered' | 'covered_set' | 'different' | None (not named netlists)
-    covered = equal up to sibling order except that y has properties x lacks"""
+    covered = equal up to sibling order except that y has properties (or empty property entries) x lacks"""
     try:
         kx, ky = struct_key(x, True), struct_key(y, True)
         if kx is None or ky is None:
@@ -283,7 +283,9 @@ def relation(x, y):
         return 'different'
     fwd = all(_props_sub(mx[k], my[k]) for k in mx)
     back = all(_props_sub(my[k], mx[k]) for k in mx)
-    if fwd and back:
+    # props_eq of Cmp/Equiv.v: absent on both sides or the same number of entries
+    same_len = all((mx[k] is None) == (my[k] is None) and (mx[k] is None or len(mx[k]) == len(my[k])) for k in mx)
+    if fwd and back and same_len:
         return 'equiv_ord' if ordered else 'equiv_set'
     if fwd:
         return 'covered' if ordered else 'covered_set'
